@@ -38,7 +38,26 @@ def parseDecl (j : Json) : R Decl := do
   | "prop" => return .prop ⟨← optS (← fld j "value"), ← fldStr j "default", ← fldStr j "extname", ← fldStr j "export"⟩
   | k => throw s!"bad decl {k}"
 
-def parseOp (j : Json) : R (Bool × Op) := do
+def parseEntries (j : Json) : R (List (String × EntrySpec)) := do
+  (← arr j).mapM (fun nd => do
+    match ← arr nd with
+    | [n, d] =>
+      match d.getObjVal? "new" with
+      | .ok pj => return (← n.getStr?, EntrySpec.new (← parseProps pj))
+      | .error _ =>
+        match ← fldStrs d "shared" with
+        | [sec, key] => return (← n.getStr?, EntrySpec.shared sec key)
+        | _ => throw "bad shared entry"
+    | _ => throw "bad cfg entry")
+
+def parseGroups (j : Json) : R (List (String × List String)) := do
+  (← arr j).mapM (fun g => do
+    match ← arr g with
+    | [n, ms] => return (← n.getStr?, ← (← arr ms).mapM (·.getStr?))
+    | _ => throw "bad group")
+
+/-- one operation of the harness = the session operations it amounts to, each with "was carried out" -/
+def parseOp (j : Json) : R (List (Bool × SOp)) := do
   let ok ← fldBool j "ok"
   match ← fldStr j "op" with
   | "class" =>
@@ -46,19 +65,23 @@ def parseOp (j : Json) : R (Bool × Op) := do
       match ← arr nd with
       | [n, d] => return (← n.getStr?, ← parseDecl d)
       | _ => throw "bad decl pair")
-    return (ok, .define ⟨← fldStr j "name", ← fldStrs j "mro", ← fldBool j "module", decls⟩)
+    return [(ok, .define ⟨← fldStr j "name", ← fldStrs j "mro", ← fldBool j "module", decls⟩ (← fldStrs j "bases"))]
+  | "load" => return [(ok, .load (← fldStr j "name") (← parseEntries (← fld j "entries")) (← parseGroups (← fld j "groups")))]
   | "inst" =>
-    let cfg ← (← fldArr j "cfg").mapM (fun nd => do
-      match ← arr nd with
-      | [n, d] => return (← n.getStr?, ← parseProps d)
-      | _ => throw "bad cfg pair")
-    return (ok, .inst (← fldStr j "name") (← fldStr j "cls") cfg)
+    let sec ← fldStr j "section"
+    let ld ← fld j "load"
+    let pre ← if ld.isNull then pure [] else do pure [(true, SOp.load sec (← parseEntries ld) (← parseGroups (← fld j "groups")))]
+    return pre ++ [(ok, .create (← fldStr j "name") (← fldStr j "cls") sec)]
   | "setprop" =>
     let path ← match j.getObjVal? "path" with
       | .ok pj => (← arr pj).mapM (fun x => x.getNat?)
       | .error _ => pure []
-    return (ok, .setprop (← fldStr j "inst") (← fldStr j "par") path (← fldStr j "key") (← fldStr j "val"))
-  | "enum" => return (ok, .addEnum (← fldStr j "inst") (← fldStr j "par") (← fldStr j "member"))
+    return [(ok, .setprop (← fldStr j "inst") (← fldStr j "par") path (← fldStr j "key") (← fldStr j "val"))]
+  | "enum" => return [(ok, .addEnum (← fldStr j "inst") (← fldStr j "par") (← fldStr j "member"))]
+  | "register" =>
+    let i ← fldStr j "inst"
+    let m ← fldStr j "member"
+    return [(true, if ok then .register i m else .registerFailed i m)]
   | k => throw s!"bad op {k}"
 
 def sortBy {α : Type} (lt : α → α → Bool) (l : List α) : List α := (l.toArray.qsort lt).toList
@@ -133,11 +156,39 @@ def partitionOf (w : World) : Json :=
     if g.length > 1 then some g else none)
   jarr ((sortBy (fun a b => a.head! < b.head!) groups).map jstrs)
 
-def snapshot (w : World) : Json :=
-  Json.mkObj [("dumps", Json.mkObj ((owners w).map (fun o => (ownerKey o, jarr ((describeH w o).map jview))))),
-              ("mdumps", Json.mkObj ((owners w).map (fun o => (ownerKey o, jarr ((describeM w o).map (jmview (isInstOwner o))))))),
-              ("mexport", Json.mkObj ((owners w).map (fun o => (ownerKey o, jprops ((describeM w o).filterMap exportM))))),
-              ("part", partitionOf w)]
+def snapshotW (w : World) : List (String × Json) :=
+  [("dumps", Json.mkObj ((owners w).map (fun o => (ownerKey o, jarr ((describeH w o).map jview))))),
+   ("mdumps", Json.mkObj ((owners w).map (fun o => (ownerKey o, jarr ((describeM w o).map (jmview (isInstOwner o))))))),
+   ("mexport", Json.mkObj ((owners w).map (fun o => (ownerKey o, jprops ((describeM w o).filterMap exportM))))),
+   ("part", partitionOf w)]
+
+def jcall (c : String × String × String) : Json := jarr [Json.str c.1, Json.str c.2.1, Json.str c.2.2]
+
+/-- calls as a sorted list (the harness records a set of calls) -/
+def jcalls (l : List (String × String × String)) : Json :=
+  jarr ((sortBy (fun a b => a.1 < b.1 || (a.1 == b.1 && (a.2.1 < b.2.1 || (a.2.1 == b.2.1 && a.2.2 < b.2.2)))) l).map jcall)
+
+def sortMembers (m : List (String × Int)) : List (String × Int) :=
+  sortBy (fun a b => a.2 < b.2 || (a.2 == b.2 && a.1 < b.1)) m
+
+/-- the control behaviour of an instance whose class has `HasControlledBy` in its MRO and which has `controlled_by` -/
+def jctrl (s : Session) (i : InstRec) : Option (String × Json) :=
+  if (mroOf s.world i.cls).contains "HasControlledBy" && ahas i.accessibles "controlled_by" then
+    let probes := match controlMembers s i.name with
+      | some ms => (sortMembers ms).flatMap (fun m =>
+          [jarr [Json.str m.1, Json.str "self_controlled", jcalls (selfControlledCalls s i.name (ms.map (·.2)) m.2)],
+           jarr [Json.str m.1, Json.str "update_target", jcalls (updateTargetCalls s i.name m.2)]])
+      | none => []
+    some ("inst:" ++ i.name, Json.mkObj [("inputs", jstrs (sortBy (· < ·) (inputsOf s i.name))), ("probes", jarr probes)])
+  else none
+
+def snapshot (s : Session) : Json :=
+  Json.mkObj (snapshotW s.world ++
+    [("cfgs", Json.mkObj (s.sections.map (fun c => ("cfg:" ++ c.name,
+        jarr ((describeCfg s c.name).map (fun kp => jarr [Json.str kp.1, jarr (kp.2.map (fun kv => jarr [Json.str kv.1, Json.str kv.2]))])))))),
+     ("auto", Json.mkObj (s.autos.map (fun a => ("inst:" ++ a.inst,
+        Json.mkObj [("features", jstrs a.features), ("interface_classes", jstrs a.interface)])))),
+     ("ctrl", Json.mkObj (s.world.insts.filterMap (jctrl s)))])
 
 def parseDumps (j : Json) : R (List (String × String)) := do
   let o ← j.getObj?
@@ -147,13 +198,14 @@ def handle (j : Json) : R Json := do
   let k ← fldStr j "k"
   match k with
   | "run" =>
+    let T : STables := ⟨tables, ← fldStrs j "secop_base"⟩
     let pre ← (← fldArr j "prelude").mapM parseOp
     let ops ← (← fldArr j "ops").mapM parseOp
-    let w0 := run tables {} (pre.map (·.2))
-    let (_, outs) := ops.foldl (fun (st : World × List Json) op =>
-      let w' := if op.1 then step tables st.1 op.2 else st.1
-      (w', st.2 ++ [snapshot w'])) (w0, [])
-    return Json.mkObj [("init", snapshot w0), ("steps", jarr outs)]
+    let s0 := srun T {} ((pre.flatten).map (·.2))
+    let (_, outs) := ops.foldl (fun (st : Session × List Json) op =>
+      let s' := op.foldl (fun s o => if o.1 then sstep T s o.2 else s) st.1
+      (s', st.2 ++ [snapshot s'])) (s0, [])
+    return Json.mkObj [("init", snapshot s0), ("steps", jarr outs)]
   | "judge_run" =>
     let init ← parseDumps (← fld j "init")
     let steps ← (← fldArr j "steps").mapM (fun s => do
